@@ -557,6 +557,7 @@ def correspondence(ctx):
     correspondence_scalar(ctx, gen)
     correspondence_masks(ctx)
     correspondence_preds(ctx)
+    logabsdet_scaled(ctx)
 
 
 # ---------------------------------------------------------------------------------------------------------------
@@ -882,6 +883,32 @@ def _collect(ctx, names=None):
     if names is None:
         ctx._c20_found = found
     return found
+
+
+def logabsdet_scaled(ctx, report=None):
+    """logabsdet must be log|det| also where det itself over/underflows (spec: sum of log|diag| for triangular matrices)"""
+    from nflows.utils import torchutils as u
+    g = torch.Generator().manual_seed(ctx.seed + 77)
+    for dt in (torch.float32, torch.float64):
+        for (n, scale) in ((30, 0.01), (40, -50.0), (2, 1e-30), (2, 1e25), (128, 0.04), (100, 2.5)):
+            if dt == torch.float64 and abs(scale) in (1e-30, 1e25):
+                n = 12
+            M = torch.tril(torch.randn(n, n, generator=g, dtype=torch.float64)) * 0.1
+            d = scale * (1.0 + 0.1 * torch.rand(n, generator=g, dtype=torch.float64))
+            M[range(n), range(n)] = d
+            want = d.abs().log().sum().item()
+            try:
+                got = float(u.logabsdet(M.to(dt)))
+            except Exception as e:
+                got = float('nan')
+            ok = math.isfinite(got) and abs(got - want) <= (1e-3 if dt == torch.float32 else 1e-9) * (1 + abs(want))
+            case = {'function': 'logabsdet', 'n': n, 'diag_scale': scale, 'dtype': str(dt)}
+            if report is None:
+                ctx.case(key=('logabsdet-scaled', n, scale, str(dt)), branch='logabsdet/scaled', nontrivial=True)
+                if not ok:
+                    ctx.disagree('c20.logabsdet', case, got, want, 'logabsdet differs from sum(log|diag|) of a triangular matrix')
+            elif not ok:
+                report('logabsdet = %r, log|det| = %r' % (got, want), case, {'function': 'logabsdet', 'symptom': 'wrong-value-scaled'})
 
 
 def search(ctx):
